@@ -67,11 +67,14 @@ def runAtomic (st : State) (recover : Bool) (f : Ctx → M Ctx) : Outcome × Sta
 def step (st : State) : Op → Outcome × State
   | .reset => ({ res := .ok }, {})
   | .fund u d amt =>
+    -- a mint of a non-positive amount is refused by x/bank: nothing happens
     let bank : Bank := fun a d' =>
-      st.core.bank a d' + (if a = .user u ∧ d' = d then amt else 0)
+      st.core.bank a d' + (if a = .user u ∧ d' = d ∧ 0 < amt then amt else 0)
     ({ res := .ok }, { st with core := { st.core with bank := bank } })
   | .gift src dst d amt =>
-    match st.core.bank.sendCoins (.user src) dst [⟨d, amt⟩] with
+    -- x/bank rejects non-positive amounts
+    if amt ≤ 0 then ({ res := .err }, st)
+    else match st.core.bank.sendCoins (.user src) dst [⟨d, amt⟩] with
     | some b => ({ res := .ok }, { st with core := { st.core with bank := b } })
     | none => ({ res := .err }, st)
   | .msg m => runAtomic st true (fun c => deliver c m)
